@@ -105,9 +105,11 @@ package dns
 //@ func NewZoneParser [C06 C07]
 //@   opt no-safety
 // the initial origin is kept fully qualified, like one set by $ORIGIN: relative names are completed with it as it stands
-//@   exit fq: called("Fqdn") ==> same(ret0.origin, callres("Fqdn")) [C06]
-//@   callsite "Fqdn" given: same(arg0, old(origin)) [C06]
-//@   exit asked: len(old(origin)) > 0 ==> called("Fqdn") [C06]
+//@   exit fq: called("Fqdn") ==> same(ret0.origin, callres("Fqdn")) [C06 C07]
+//@   callsite "Fqdn" given: same(arg0, old(origin)) [C06 C07]
+//@   exit asked: len(old(origin)) > 0 ==> called("Fqdn") [C06 C07]
+// ... and validated, in whatever form it was given: a malformed origin is reported by the first Next
+//@   exit valid: len(old(origin)) > 0 ==> called("IsDomainName") && (!callres("IsDomainName", 1) ==> ret0.parseErr != nil) [C06 C07]
 //@   ensures ret0 != nil && ret0.c != nil && ret0.sub == nil && (ret0.c.l.value == 1 ==> len(ret0.c.l.token) > 0) && (ret0.c.cachedL != nil ==> (ret0.c.cachedL.value == 1 ==> len(ret0.c.cachedL.token) > 0))
 //@   fresh
 //@ func (*ZoneParser).generate [C06 C07]
